@@ -29,6 +29,12 @@ class InducedSet:
         "Induced set cannot be computed\n"+
         "Line is not connected to a GFA instance\n"+
         "Line: {}".format(self))
+    return self._compute_induced_segments_set(())
+
+  def _compute_induced_segments_set(self, visiting):
+    # visiting: the sets whose induced set is being computed
+    # (a set which is nested in itself contributes nothing further)
+    visiting = visiting + (self,)
     segments_set = list()
     for item in self.items:
       if isinstance(item, str):
@@ -52,8 +58,9 @@ class InducedSet:
           segments_set.append(elem.line)
       elif isinstance(item, gfapy.line.group.Unordered):
         self._check_induced_set_elem_connected(item)
-        subset = item.induced_segments_set
-        assert(subset)
+        if any(group is item for group in visiting):
+          continue
+        subset = item._compute_induced_segments_set(visiting)
         for elem in subset:
           segments_set.append(elem)
       elif isinstance(item, gfapy.line.Unknown):
